@@ -1,6 +1,6 @@
 (* C02 -- force-balance equations use outward unit tangents at the right junctions.  Statements only. *)
 From Coq Require Import ZArith QArith List Bool Reals.
-From Forsys Require Import Model.Num Model.PyList Model.Interfaces Model.ForceSys Proofs.ForceSysProofs.
+From Forsys Require Import Model.Num Model.PyList Model.Interfaces Model.ForceSys Model.CircleFit Proofs.ForceSysProofs Proofs.CircleFitProofs.
 Import ListNotations.
 
 (* one unknown per internal interface (nothing flagged => nothing excluded) *)
@@ -57,9 +57,42 @@ Example C02_hquad_example :
   Qeq_bool (fst r) (fst t) = true /\ Qeq_bool (snd r) (snd t) = true.
 Proof. vm_compute. split; reflexivity. Qed.
 
+(* ---- the 'dlite' circle fit (virtual_edges.py:285-307): the residual vector handed to leastsq *)
+(* on points of one circle every residual vanishes at the circle's centre ... *)
+Theorem C02_dlite_residuals_vanish_at_the_centre : forall (c : R * R) pts (rho : R), pts <> [] ->
+  (forall p, In p pts -> cdist ROps c p = rho) -> Forall (fun x => x = 0%R) (objective ROps c pts).
+Proof. exact objective_zero_at_centre. Qed.
+(* ... and, when three of the points are not collinear, the cost leastsq minimises is zero there and positive at every other trial
+   centre: the centre is the only global minimiser (what leastsq reaches numerically is measured by the harness, c02.fit_delta) *)
+Theorem C02_dlite_cost_minimised_exactly_at_the_centre : forall (c0 : R * R) (rho : R) pts p1 p2 p3,
+  (forall p, In p pts -> cdist ROps c0 p = rho) -> In p1 pts -> In p2 pts -> In p3 pts ->
+  ((fst p2 - fst p1) * (snd p3 - snd p1) - (fst p3 - fst p1) * (snd p2 - snd p1) <> 0)%R ->
+  cost ROps c0 pts = 0%R /\ forall c, c <> c0 -> (0 < cost ROps c pts)%R.
+Proof. exact dlite_cost_minimised_exactly_at_the_centre. Qed.
+
+(* ---- the shortcut for collinear points in calculate_circle_center (virtual_edges.py:259-266) *)
+(* whether the shortcut is taken does not depend on the position, orientation or (non-zero) scale of the tissue *)
+Theorem C02_collinear_shortcut_similarity_invariant : forall (a b tx ty tol : R) pts, (0 < a * a + b * b)%R ->
+  shortcut_taken ROps tol (map (simil a b tx ty) pts) = shortcut_taken ROps tol pts.
+Proof. exact shortcut_similarity_invariant. Qed.
+(* exactly collinear points (three or more, end points apart) always take it ... *)
+Theorem C02_collinear_points_take_the_shortcut : forall (tol : R) pts, (0 <= tol)%R -> (2 < length pts)%nat -> (0 < chord2 ROps pts)%R ->
+  Forall (fun o => o = 0%R) (offsets ROps pts) -> shortcut_taken ROps tol pts = true.
+Proof. exact collinear_points_take_the_shortcut. Qed.
+(* ... and get a centre on the normal to the chord through the mean point *)
+Theorem C02_far_centre_on_the_normal : forall (far : R) pts,
+  let c := far_centre ROps far pts in let d := chord ROps pts in
+  ((fst c - mean ROps (map fst pts)) * fst d + (snd c - mean ROps (map snd pts)) * snd d = 0)%R.
+Proof. exact far_centre_on_the_normal. Qed.
+
 Print Assumptions C02_columns_are_internal_interfaces.
 Print Assumptions C02_rows_spec.
 Print Assumptions C02_entry_is_versor.
 Print Assumptions C02_oriented_tangent_points_along.
 Print Assumptions C02_force_rule_correct_under_hquad.
 Print Assumptions C02_sign_forcing_refuted.
+Print Assumptions C02_dlite_residuals_vanish_at_the_centre.
+Print Assumptions C02_dlite_cost_minimised_exactly_at_the_centre.
+Print Assumptions C02_collinear_shortcut_similarity_invariant.
+Print Assumptions C02_collinear_points_take_the_shortcut.
+Print Assumptions C02_far_centre_on_the_normal.
